@@ -659,6 +659,7 @@ func (cl *Client) produce(
 			p.blocked.Add(-1)
 			p.blockedBytes -= userSize
 			verifEvent("unblock", r, int64(p.blocked.Load()), p.blockedBytes)
+			verifEvent("waiters", r, p.bufferedRecords, int64(p.flushing.Load()))
 		}()
 
 		drainBuffered := func(err error) {
@@ -676,6 +677,7 @@ func (cl *Client) produce(
 				p.mu.Lock()
 				quit = true
 				p.mu.Unlock()
+				verifEvent("bcast", nil, 1, 0)
 				p.c.Broadcast()
 			}()
 			<-wait // we wait for the goroutine to exit, then unlock again (since the goroutine leaves the mutex locked)
@@ -691,6 +693,7 @@ func (cl *Client) produce(
 			// pre-decrement sum and went back to waiting. Broadcast now,
 			// after the decrement is visible, so a Flush whose sum reached
 			// zero is woken; without this it can hang forever.
+			verifEvent("bcast", nil, 2, 0)
 			p.c.Broadcast()
 			p.promiseRecordBeforeBuf(promisedRec{ctx, promise, r}, err)
 		}
@@ -830,6 +833,7 @@ start:
 			p.batchPromises.mu.Unlock()
 			p.onBatchPromiseBroadcast(moreQueued)
 		}
+		verifEvent("bcast", nil, 3, 0)
 		p.c.Broadcast()
 		broadcast = false
 	}
@@ -869,6 +873,7 @@ func (cl *Client) finishRecordPromise(pr promisedRec, err error, beforeBuffering
 	p.bufferedRecords--
 	broadcast = p.blocked.Load() > 0 || p.bufferedRecords == 0 && p.flushing.Load() > 0
 	verifEvent("finish", pr.Record, p.bufferedRecords, p.bufferedBytes)
+	verifEvent("waiters", pr.Record, int64(p.blocked.Load()), int64(p.flushing.Load()))
 	p.mu.Unlock()
 
 	return broadcast
@@ -1445,6 +1450,7 @@ func (cl *Client) Flush(ctx context.Context) error {
 		p.mu.Lock()
 		quit = true
 		p.mu.Unlock()
+		verifEvent("bcast", nil, 4, 0)
 		p.c.Broadcast()
 		return ctx.Err()
 	}
